@@ -1,1 +1,360 @@
-(* Props/C04.v -- stub, to be filled in *)
+(* Props/C04.v -- property theorems only: Theorem / exact lemma / Check (pins the statement) / Print Assumptions.
+   C04: a banded matrix behaves exactly like the dense matrix with the same band. *)
+From Coq Require Import List Arith ZArith QArith Qcanon Lia Floats.
+From OV Require Import Base.Panic Base.Arith Base.Flat Model.Vector Model.Matrix Model.Banded Inst.QcInst Inst.FloatInst Proofs.Banded Proofs.BandedLU Proofs.BandedTotal Proofs.BandedComplete Proofs.BandedDet Proofs.BandedHist Proofs.BandedEdit Proofs.BandedFill Legacy.C04Refuted.
+Import ListNotations.
+Local Open Scope nat_scope.
+
+(* ---- index map: in-band test, slot range, column recovered from the slot, injectivity ---- *)
+Theorem band_index_spec : forall m1 m2 i j : nat,
+  (in_band m1 m2 i j = true <-> (i <= j + m1 /\ j <= i + m2)) /\
+  (in_band m1 m2 i j = true -> band_slot m1 i j < m1 + m2 + 1 /\ j + m1 = i + band_slot m1 i j) /\
+  (forall j', in_band m1 m2 i j = true -> in_band m1 m2 i j' = true ->
+              band_slot m1 i j = band_slot m1 i j' -> j = j').
+Proof. exact band_index_spec_lemma. Qed.
+Check band_index_spec : forall m1 m2 i j : nat,
+  (in_band m1 m2 i j = true <-> (i <= j + m1 /\ j <= i + m2)) /\
+  (in_band m1 m2 i j = true -> band_slot m1 i j < m1 + m2 + 1 /\ j + m1 = i + band_slot m1 i j) /\
+  (forall j', in_band m1 m2 i j = true -> in_band m1 m2 i j' = true ->
+              band_slot m1 i j = band_slot m1 i j' -> j = j').
+Print Assumptions band_index_spec.
+Example band_index_spec_nonvacuous :
+  in_band 1 2 3 5 = true /\ in_band 1 2 3 2 = true /\ in_band 1 2 3 6 = false /\ in_band 1 2 3 1 = false /\
+  band_slot 1 3 5 = 3 /\ band_slot 1 3 2 = 0.
+Proof. repeat split. Qed.
+
+(* distinct in-band elements occupy distinct offsets inside the n x (m1+m2+1) buffer *)
+Theorem band_storage_spec : forall n m1 m2 i j i' j' : nat,
+  i < n -> i' < n -> in_band m1 m2 i j = true -> in_band m1 m2 i' j' = true ->
+  i * (m1 + m2 + 1) + band_slot m1 i j < n * (m1 + m2 + 1) /\
+  (i * (m1 + m2 + 1) + band_slot m1 i j = i' * (m1 + m2 + 1) + band_slot m1 i' j' -> i = i' /\ j = j').
+Proof. exact band_storage_spec_lemma. Qed.
+Check band_storage_spec : forall n m1 m2 i j i' j' : nat,
+  i < n -> i' < n -> in_band m1 m2 i j = true -> in_band m1 m2 i' j' = true ->
+  i * (m1 + m2 + 1) + band_slot m1 i j < n * (m1 + m2 + 1) /\
+  (i * (m1 + m2 + 1) + band_slot m1 i j = i' * (m1 + m2 + 1) + band_slot m1 i' j' -> i = i' /\ j = j').
+Print Assumptions band_storage_spec.
+Example band_storage_spec_nonvacuous : 2 < 4 /\ 3 < 4 /\ in_band 2 1 2 0 = true /\ in_band 2 1 3 4 = true.
+Proof. repeat split; auto. Qed.
+
+(* element access: the dense twin on the band, refused (panic) outside it *)
+Theorem band_get_dense : forall (A : Arith) (B : banded A) (i j : nat),
+  wfB B -> i < bn B -> j < bn B ->
+  band_get B i j = if in_band (bm1 B) (bm2 B) i j then Ok (dense_entry B i j) else Panic Guard.
+Proof. intros A B i j. exact (band_get_spec B i j). Qed.
+Check band_get_dense : forall (A : Arith) (B : banded A) (i j : nat),
+  wfB B -> i < bn B -> j < bn B ->
+  band_get B i j = if in_band (bm1 B) (bm2 B) i j then Ok (dense_entry B i j) else Panic Guard.
+Print Assumptions band_get_dense.
+
+(* ---- &B * &v = (dense twin) . v for all (n, m1, m2), and no padding slot is ever read ---- *)
+Theorem band_mul_spec : forall (A : Arith), RingLaws A -> forall (B : banded A) (v : list A),
+  wfB B -> length v = bn B ->
+  band_mul B v = Ok (dense_mulv B v) /\
+  forall B', same_in_matrix_slots B B' -> band_mul B' v = band_mul B v.
+Proof. intros A RL B v. exact (band_mul_spec_lemma RL B v). Qed.
+Check band_mul_spec : forall (A : Arith), RingLaws A -> forall (B : banded A) (v : list A),
+  wfB B -> length v = bn B ->
+  band_mul B v = Ok (dense_mulv B v) /\
+  forall B', same_in_matrix_slots B B' -> band_mul B' v = band_mul B v.
+Print Assumptions band_mul_spec.
+(* non-vacuity: a 3x3 band (m1 = 1, m2 = 1) over Qc with loud padding, and a second matrix that
+   differs from it exactly in the two padding slots *)
+Definition ex_B : banded AQ :=
+  @mkB AQ 3 1 1 (@mkM AQ [q 77 1; q 2 1; q (-1) 1;  q 1 1; q 0 1; q 3 1;  q (-4) 1; q 5 1; q (-13) 1] 3 3).
+Definition ex_B' : banded AQ :=
+  @mkB AQ 3 1 1 (@mkM AQ [q 0 1; q 2 1; q (-1) 1;  q 1 1; q 0 1; q 3 1;  q (-4) 1; q 5 1; q 1000 1] 3 3).
+Example band_mul_spec_nonvacuous :
+  RingLaws AQ /\ wfB ex_B /\ length ([q 1 1; q 2 1; q 3 1] : list AQ) = bn ex_B /\
+  same_in_matrix_slots ex_B ex_B' /\ compact ex_B' <> compact ex_B /\
+  @band_mul AQ ex_B [q 1 1; q 2 1; q 3 1] = Ok [q 0 1; q 10 1; q 7 1].
+Proof.
+  split; [exact AQ_RingLaws|]. split; [repeat split|]. split; [reflexivity|].
+  split.
+  - split; [repeat split|]. repeat split.
+    intros i j Hi Hj. cbn in Hi, Hj.
+    destruct i as [|[|[|i]]]; try lia; destruct j as [|[|[|j]]]; try lia; intros Hb; try discriminate Hb;
+      vm_compute; reflexivity.
+  - split; [intros E; discriminate E|]. vm_compute. reflexivity.
+Qed.
+
+(* ---- editing operations on the dense twin: Banded::new, index_mut, fill_band ---- *)
+Theorem band_edit_dense : forall (A : Arith) (B : banded A) (x : A),
+  (forall n m1 m2 i j, i < n -> j < n ->
+     dense_entry (band_new n m1 m2 x) i j = if in_band m1 m2 i j then x else zero) /\
+  (wfB B -> forall i j, i < bn B -> j < bn B -> in_band (bm1 B) (bm2 B) i j = true ->
+     exists B', band_set B i j x = Ok B' /\ wfB B' /\ bn B' = bn B /\ bm1 B' = bm1 B /\ bm2 B' = bm2 B /\
+       forall i' j', i' < bn B -> j' < bn B ->
+         dense_entry B' i' j' = if (i' =? i) && (j' =? j) then x else dense_entry B i' j') /\
+  (wfB B -> forall b : Z,
+     if ((b <? - Z.of_nat (bm1 B))%Z || (Z.of_nat (bm2 B) <? b)%Z) then band_fill_band B b x = Panic Guard
+     else exists B', band_fill_band B b x = Ok B' /\ wfB B' /\ bn B' = bn B /\ bm1 B' = bm1 B /\ bm2 B' = bm2 B /\
+       forall i j, i < bn B -> j < bn B ->
+         dense_entry B' i j =
+           if in_band (bm1 B) (bm2 B) i j && (Z.of_nat j - Z.of_nat i =? b)%Z then x else dense_entry B i j).
+Proof.
+  intros A B x. split; [intros n m1 m2 i j; apply band_new_dense|]. split.
+  - intros Hwf i j. now apply band_set_dense.
+  - intros Hwf b. now apply band_fill_band_dense.
+Qed.
+Check band_edit_dense : forall (A : Arith) (B : banded A) (x : A),
+  (forall n m1 m2 i j, i < n -> j < n ->
+     dense_entry (band_new n m1 m2 x) i j = if in_band m1 m2 i j then x else zero) /\
+  (wfB B -> forall i j, i < bn B -> j < bn B -> in_band (bm1 B) (bm2 B) i j = true ->
+     exists B', band_set B i j x = Ok B' /\ wfB B' /\ bn B' = bn B /\ bm1 B' = bm1 B /\ bm2 B' = bm2 B /\
+       forall i' j', i' < bn B -> j' < bn B ->
+         dense_entry B' i' j' = if (i' =? i) && (j' =? j) then x else dense_entry B i' j') /\
+  (wfB B -> forall b : Z,
+     if ((b <? - Z.of_nat (bm1 B))%Z || (Z.of_nat (bm2 B) <? b)%Z) then band_fill_band B b x = Panic Guard
+     else exists B', band_fill_band B b x = Ok B' /\ wfB B' /\ bn B' = bn B /\ bm1 B' = bm1 B /\ bm2 B' = bm2 B /\
+       forall i j, i < bn B -> j < bn B ->
+         dense_entry B' i j =
+           if in_band (bm1 B) (bm2 B) i j && (Z.of_nat j - Z.of_nat i =? b)%Z then x else dense_entry B i j).
+Print Assumptions band_edit_dense.
+Example band_edit_dense_nonvacuous : wfB ex_B /\ 1 < bn ex_B /\ 2 < bn ex_B /\ in_band (bm1 ex_B) (bm2 ex_B) 1 2 = true.
+Proof. repeat split; cbn; lia. Qed.
+
+(* Banded::fill: every in-band entry of the dense twin becomes x *)
+Theorem band_fill_dense_thm : forall (A : Arith) (B : banded A) (x : A),
+  wfB B ->
+  exists B', band_fill B x = Ok B' /\ wfB B' /\ bn B' = bn B /\ bm1 B' = bm1 B /\ bm2 B' = bm2 B /\
+    forall i j, i < bn B -> j < bn B ->
+      dense_entry B' i j = if in_band (bm1 B) (bm2 B) i j then x else zero.
+Proof. intros A B x. exact (band_fill_dense B x). Qed.
+Check band_fill_dense_thm : forall (A : Arith) (B : banded A) (x : A),
+  wfB B ->
+  exists B', band_fill B x = Ok B' /\ wfB B' /\ bn B' = bn B /\ bm1 B' = bm1 B /\ bm2 B' = bm2 B /\
+    forall i j, i < bn B -> j < bn B ->
+      dense_entry B' i j = if in_band (bm1 B) (bm2 B) i j then x else zero.
+Print Assumptions band_fill_dense_thm.
+
+(* ---- the hypothesis wfB of the theorems above holds of every matrix the public API can build: it holds of
+   Banded::new and every operation (a panicking one leaves the matrix as it was) preserves it ---- *)
+Theorem band_history_wf : forall (A : Arith) (n m1 m2 : nat) (x : A) (ops : list (bop A)),
+  wfB (brun_state (band_new n m1 m2 x) ops).
+Proof. intros A n m1 m2 x ops. exact (band_history_wf_lemma ops _ (band_new_wf n m1 m2 x)). Qed.
+Check band_history_wf : forall (A : Arith) (n m1 m2 : nat) (x : A) (ops : list (bop A)),
+  wfB (brun_state (band_new n m1 m2 x) ops).
+Print Assumptions band_history_wf.
+
+(* ---- arithmetic commutes with the dense twin (by-value operators) ---- *)
+Theorem band_arith_dense : forall (A : Arith), RingLaws A -> forall (B C : banded A) (s : A),
+  wfB B -> wfB C -> bn C = bn B -> bm1 C = bm1 B -> bm2 C = bm2 B ->
+  (exists R, band_neg B = Ok R /\ like B R /\
+     forall i j, i < bn B -> j < bn B -> dense_entry R i j = neg (dense_entry B i j)) /\
+  (exists R, band_add B C = Ok R /\ like B R /\
+     forall i j, i < bn B -> j < bn B -> dense_entry R i j = add (dense_entry B i j) (dense_entry C i j)) /\
+  (exists R, band_sub B C = Ok R /\ like B R /\
+     forall i j, i < bn B -> j < bn B -> dense_entry R i j = sub (dense_entry B i j) (dense_entry C i j)) /\
+  (exists R, band_scale B s = Ok R /\ like B R /\
+     forall i j, i < bn B -> j < bn B -> dense_entry R i j = mul (dense_entry B i j) s).
+Proof. intros A RL B C s. exact (band_arith_dense_lemma RL B C s). Qed.
+Check band_arith_dense : forall (A : Arith), RingLaws A -> forall (B C : banded A) (s : A),
+  wfB B -> wfB C -> bn C = bn B -> bm1 C = bm1 B -> bm2 C = bm2 B ->
+  (exists R, band_neg B = Ok R /\ like B R /\
+     forall i j, i < bn B -> j < bn B -> dense_entry R i j = neg (dense_entry B i j)) /\
+  (exists R, band_add B C = Ok R /\ like B R /\
+     forall i j, i < bn B -> j < bn B -> dense_entry R i j = add (dense_entry B i j) (dense_entry C i j)) /\
+  (exists R, band_sub B C = Ok R /\ like B R /\
+     forall i j, i < bn B -> j < bn B -> dense_entry R i j = sub (dense_entry B i j) (dense_entry C i j)) /\
+  (exists R, band_scale B s = Ok R /\ like B R /\
+     forall i j, i < bn B -> j < bn B -> dense_entry R i j = mul (dense_entry B i j) s).
+Print Assumptions band_arith_dense.
+Example band_arith_dense_nonvacuous :
+  RingLaws AQ /\ wfB ex_B /\ wfB ex_B' /\ bn ex_B' = bn ex_B /\ bm1 ex_B' = bm1 ex_B /\ bm2 ex_B' = bm2 ex_B.
+Proof. split; [exact AQ_RingLaws|]. repeat split. Qed.
+
+(* ---- compound assignments; `B += c` / `B -= c` reach the stored in-band entries only ---- *)
+Theorem band_assign_dense : forall (A : Arith), RingLaws A -> forall (B C : banded A) (s : A),
+  wfB B -> wfB C -> bn C = bn B -> bm1 C = bm1 B -> bm2 C = bm2 B ->
+  (exists R, band_add_assign B C = Ok R /\ like B R /\
+     forall i j, i < bn B -> j < bn B -> dense_entry R i j = add (dense_entry B i j) (dense_entry C i j)) /\
+  (exists R, band_sub_assign B C = Ok R /\ like B R /\
+     forall i j, i < bn B -> j < bn B -> dense_entry R i j = sub (dense_entry B i j) (dense_entry C i j)) /\
+  (exists R, band_mul_assign_s B s = Ok R /\ like B R /\
+     forall i j, i < bn B -> j < bn B -> dense_entry R i j = mul (dense_entry B i j) s) /\
+  (exists R, band_add_assign_s B s = Ok R /\ like B R /\
+     forall i j, i < bn B -> j < bn B ->
+       dense_entry R i j = if in_band (bm1 B) (bm2 B) i j then add (dense_entry B i j) s else zero) /\
+  (exists R, band_sub_assign_s B s = Ok R /\ like B R /\
+     forall i j, i < bn B -> j < bn B ->
+       dense_entry R i j = if in_band (bm1 B) (bm2 B) i j then sub (dense_entry B i j) s else zero).
+Proof. intros A RL B C s. exact (band_assign_dense_lemma RL B C s). Qed.
+Check band_assign_dense : forall (A : Arith), RingLaws A -> forall (B C : banded A) (s : A),
+  wfB B -> wfB C -> bn C = bn B -> bm1 C = bm1 B -> bm2 C = bm2 B ->
+  (exists R, band_add_assign B C = Ok R /\ like B R /\
+     forall i j, i < bn B -> j < bn B -> dense_entry R i j = add (dense_entry B i j) (dense_entry C i j)) /\
+  (exists R, band_sub_assign B C = Ok R /\ like B R /\
+     forall i j, i < bn B -> j < bn B -> dense_entry R i j = sub (dense_entry B i j) (dense_entry C i j)) /\
+  (exists R, band_mul_assign_s B s = Ok R /\ like B R /\
+     forall i j, i < bn B -> j < bn B -> dense_entry R i j = mul (dense_entry B i j) s) /\
+  (exists R, band_add_assign_s B s = Ok R /\ like B R /\
+     forall i j, i < bn B -> j < bn B ->
+       dense_entry R i j = if in_band (bm1 B) (bm2 B) i j then add (dense_entry B i j) s else zero) /\
+  (exists R, band_sub_assign_s B s = Ok R /\ like B R /\
+     forall i j, i < bn B -> j < bn B ->
+       dense_entry R i j = if in_band (bm1 B) (bm2 B) i j then sub (dense_entry B i j) s else zero).
+Print Assumptions band_assign_dense.
+
+(* ---- division by a nonzero scalar, over a field ---- *)
+Theorem band_div_dense : forall (A : Arith) (FL : FieldLaws A) (B : banded A) (s : A),
+  wfB B -> eqb s zero = false ->
+  (exists R, band_div B s = Ok R /\ like B R /\
+     forall i j, i < bn B -> j < bn B -> dense_entry R i j = mul (dense_entry B i j) (fl_inv A FL s)) /\
+  (exists R, band_div_assign_s B s = Ok R /\ like B R /\
+     forall i j, i < bn B -> j < bn B -> dense_entry R i j = mul (dense_entry B i j) (fl_inv A FL s)).
+Proof. intros A FL B s. exact (band_div_dense_lemma FL B s). Qed.
+Check band_div_dense : forall (A : Arith) (FL : FieldLaws A) (B : banded A) (s : A),
+  wfB B -> eqb s zero = false ->
+  (exists R, band_div B s = Ok R /\ like B R /\
+     forall i j, i < bn B -> j < bn B -> dense_entry R i j = mul (dense_entry B i j) (fl_inv A FL s)) /\
+  (exists R, band_div_assign_s B s = Ok R /\ like B R /\
+     forall i j, i < bn B -> j < bn B -> dense_entry R i j = mul (dense_entry B i j) (fl_inv A FL s)).
+Print Assumptions band_div_dense.
+Example band_div_dense_nonvacuous : wfB ex_B /\ @eqb AQ (q 2 1) zero = false.
+Proof. split; [repeat split|reflexivity]. Qed.
+
+(* ---- the compact LU (left shift, window, row exchanges, stored multipliers) followed by forward and back
+   substitution is sound over any field, for all n, m2 and m1 <= n (the property quantifies over m1 < n; for
+   m1 > n the code falls off its buffer, which the `wide-bands` family of the check ties to the model): whatever
+   band_solve returns solves the dense twin's system, and so does whatever it returns on any matrix that differs
+   in padding slots only.  The proof does not use the pivot rule: any row of the window is a sound choice. ---- *)
+Theorem band_solve_sound : forall (A : Arith), FieldLaws A -> forall (B : banded A) (b x : list A),
+  wfB B -> length b = bn B -> bm1 B <= bn B ->
+  band_solve B b = Ok x ->
+  length x = bn B /\ dense_mulv B x = b /\
+  forall B' x', same_in_matrix_slots B B' -> band_solve B' b = Ok x' -> dense_mulv B x' = b.
+Proof. intros A FL B b x. exact (band_solve_sound_full FL B b x). Qed.
+Check band_solve_sound : forall (A : Arith), FieldLaws A -> forall (B : banded A) (b x : list A),
+  wfB B -> length b = bn B -> bm1 B <= bn B ->
+  band_solve B b = Ok x ->
+  length x = bn B /\ dense_mulv B x = b /\
+  forall B' x', same_in_matrix_slots B B' -> band_solve B' b = Ok x' -> dense_mulv B x' = b.
+Print Assumptions band_solve_sound.
+(* non-vacuity: a 4x4 system with m1 = 2, m2 = 1, zero leading entry (exchange at stage 0), a negative
+   entry of larger magnitude at stage 1 (second exchange), loud padding; the solver answers *)
+Definition ex_S : banded AQ :=
+  @mkB AQ 4 2 1 (@mkM AQ [q 77 1; q (-13) 1; q 0 1; q 2 1;    q 5 7; q (-3) 1; q 1 1; q 1 1;
+                          q 1 1; q 4 1; q (-1) 1; q 2 1;      q 2 1; q 0 1; q 3 1; q 1000 1] 4 4).
+Example band_solve_sound_nonvacuous :
+  wfB ex_S /\ length ([q 2 1; q (-1) 1; q 6 1; q 5 1] : list AQ) = bn ex_S /\ bm1 ex_S <= bn ex_S /\
+  is_ok (@band_solve AQ ex_S [q 2 1; q (-1) 1; q 6 1; q 5 1]) = true /\
+  fl_res (fl_list flat_q) (@band_solve AQ ex_S [q 2 1; q (-1) 1; q 6 1; q 5 1]) = [0; 4;  2; 1; 1;  2; 1; 1;  2; 1; 1;  2; 1; 1]%Z.
+Proof. split; [repeat split|]. split; [reflexivity|]. split; [cbn; lia|]. split; vm_compute; reflexivity. Qed.
+
+(* ---- band_solve never leaves its buffers: on a well-formed band it answers (and the answer is exact), or it
+   refuses with a division by a zero pivot of its own factorisation; no other panic is possible ---- *)
+Theorem band_solve_exact_or_refuses : forall (A : Arith), FieldLaws A -> forall (B : banded A) (b : list A),
+  wfB B -> length b = bn B -> bm1 B <= bn B ->
+  (exists x, band_solve B b = Ok x /\ length x = bn B /\ dense_mulv B x = b) \/
+  (band_solve B b = Panic DivZero /\
+   exists auN alN indexN dN,
+     decompose_gen false B (compact B) (mat_new (bn B) (bm1 B) zero) (repeat 0 (bn B)) = Ok (auN, alN, indexN, dN) /\
+     exists i, i < bn B /\ mat_at auN (bm1 B + bm2 B + 1) i 0 = zero).
+Proof. intros A FL B b. exact (band_solve_exact_or_refuses_lemma FL B b). Qed.
+Check band_solve_exact_or_refuses : forall (A : Arith), FieldLaws A -> forall (B : banded A) (b : list A),
+  wfB B -> length b = bn B -> bm1 B <= bn B ->
+  (exists x, band_solve B b = Ok x /\ length x = bn B /\ dense_mulv B x = b) \/
+  (band_solve B b = Panic DivZero /\
+   exists auN alN indexN dN,
+     decompose_gen false B (compact B) (mat_new (bn B) (bm1 B) zero) (repeat 0 (bn B)) = Ok (auN, alN, indexN, dN) /\
+     exists i, i < bn B /\ mat_at auN (bm1 B + bm2 B + 1) i 0 = zero).
+Print Assumptions band_solve_exact_or_refuses.
+Example band_solve_exact_or_refuses_nonvacuous :   (* both branches occur: ex_S is answered, the zero matrix is refused *)
+  is_ok (@band_solve AQ ex_S [q 2 1; q (-1) 1; q 6 1; q 5 1]) = true /\
+  @band_solve AQ (@band_new AQ 2 1 1 (q 0 1)) [q 1 1; q 1 1] = Panic DivZero.
+Proof. split; vm_compute; reflexivity. Qed.
+
+(* ---- completeness: with the magnitude rule (PivotLaws: abs 0 = 0, |x| is never below 0, 0 < |x| for x <> 0)
+   the solver answers on every band whose dense twin is nonsingular (trivial kernel), whatever the signs of the
+   entries, and the answer is the solution.  This is the half that the pre-repair signed rule fails
+   (band_pivot_legacy_refuted_exact: [[-1,1],[0,1]] is nonsingular and refused). ---- *)
+Theorem band_solve_complete : forall (A : Arith), FieldLaws A -> PivotLaws A -> forall (B : banded A) (b : list A),
+  wfB B -> length b = bn B -> bm1 B <= bn B -> trivial_kernel B ->
+  exists x, band_solve B b = Ok x /\ length x = bn B /\ dense_mulv B x = b.
+Proof. intros A FL PL B b. exact (band_solve_complete_lemma FL PL B b). Qed.
+Check band_solve_complete : forall (A : Arith), FieldLaws A -> PivotLaws A -> forall (B : banded A) (b : list A),
+  wfB B -> length b = bn B -> bm1 B <= bn B -> trivial_kernel B ->
+  exists x, band_solve B b = Ok x /\ length x = bn B /\ dense_mulv B x = b.
+Print Assumptions band_solve_complete.
+(* non-vacuity: [[0,1],[1,5]] (m1 = m2 = 1, loud padding) has a zero leading entry and a trivial kernel *)
+Definition ex_K : banded AQ :=
+  @mkB AQ 2 1 1 (@mkM AQ [q 77 1; q 0 1; q 1 1;   q 1 1; q 5 1; q (-13) 1] 2 3).
+Example band_solve_complete_nonvacuous :
+  PivotLaws AQ /\ wfB ex_K /\ bm1 ex_K <= bn ex_K /\ trivial_kernel ex_K.
+Proof.
+  split; [exact AQ_PivotLaws|]. split; [repeat split|]. split; [cbn; lia|].
+  intros x Hx H. destruct x as [|x0 [|x1 [|? ?]]]; try discriminate Hx.
+  unfold dense_mulv in H. cbn [bn ex_K seq map sum_n nth repeat] in H.
+  assert (H00 : dense_entry ex_K 0 0 = (q 0 1 : AQ)) by reflexivity.
+  assert (H01 : dense_entry ex_K 0 1 = (q 1 1 : AQ)) by reflexivity.
+  assert (H10 : dense_entry ex_K 1 0 = (q 1 1 : AQ)) by reflexivity.
+  assert (H11 : dense_entry ex_K 1 1 = (q 5 1 : AQ)) by reflexivity.
+  rewrite H00, H01, H10, H11 in H.
+  assert (E0 := f_equal (fun l => nth 0 l (@zero AQ)) H). assert (E1 := f_equal (fun l => nth 1 l (@zero AQ)) H).
+  cbn [nth] in E0, E1. clear H.
+  change (@zero AQ) with 0%Qc in *. change (@add AQ) with Qcplus in *. change (@mul AQ) with Qcmult in *.
+  change (q 0 1) with 0%Qc in *. change (q 1 1) with 1%Qc in *.
+  change (T AQ) with Qc in *.
+  assert (Hx1 : x1 = 0%Qc) by (rewrite <- E0; ring).
+  assert (Hx0 : x0 = 0%Qc) by (rewrite <- E1, Hx1; ring).
+  subst. reflexivity.
+Qed.
+
+(* ---- on a nonsingular band no padding slot influences the solution: two matrices that agree on every
+   in-matrix slot get the same answer (an equation between two runs of the solver) ---- *)
+Theorem band_solve_padding_independent : forall (A : Arith), FieldLaws A -> PivotLaws A ->
+  forall (B : banded A) (b : list A),
+  wfB B -> length b = bn B -> bm1 B <= bn B -> trivial_kernel B ->
+  forall B', same_in_matrix_slots B B' -> band_solve B' b = band_solve B b.
+Proof. intros A FL PL B b. exact (band_solve_padding_lemma FL PL B b). Qed.
+Check band_solve_padding_independent : forall (A : Arith), FieldLaws A -> PivotLaws A ->
+  forall (B : banded A) (b : list A),
+  wfB B -> length b = bn B -> bm1 B <= bn B -> trivial_kernel B ->
+  forall B', same_in_matrix_slots B B' -> band_solve B' b = band_solve B b.
+Print Assumptions band_solve_padding_independent.
+Definition ex_K' : banded AQ :=
+  @mkB AQ 2 1 1 (@mkM AQ [q 0 1; q 0 1; q 1 1;   q 1 1; q 5 1; q 1000 1] 2 3).
+Example band_solve_padding_independent_nonvacuous :
+  same_in_matrix_slots ex_K ex_K' /\ compact ex_K' <> compact ex_K.
+Proof.
+  split; [|intros E; discriminate E]. split; [repeat split|]. repeat split.
+  intros i j Hi Hj. cbn in Hi, Hj.
+  destruct i as [|[|i]]; try lia; destruct j as [|[|j]]; try lia; intros Hb; try discriminate Hb; vm_compute; reflexivity.
+Qed.
+
+(* ---- determinant (partial).  Full statement planned in DESIGN: band_det B = determinant (dense B).  Proved:
+   band_det always answers; it is (+-1) * the product of the pivots of the factorisation band_solve uses, so
+   (i) a nonzero determinant makes the solver answer exactly for every right-hand side, and (ii) on a
+   nonsingular band (trivial kernel, magnitude rule) the determinant is nonzero.  Not proved: equality with a
+   determinant function of the dense twin (sign rule, multiplicativity); the check ties band_det to the model
+   on every (n,m1,m2) and judges it against an exact determinant of the dense twin. ---- *)
+Theorem band_det_spec_partial : forall (A : Arith), FieldLaws A -> PivotLaws A -> forall (B : banded A),
+  wfB B -> bm1 B <= bn B ->
+  exists dd, band_det B = Ok dd /\
+    (dd <> zero -> forall b, length b = bn B ->
+       exists x, band_solve B b = Ok x /\ length x = bn B /\ dense_mulv B x = b) /\
+    (trivial_kernel B -> dd <> zero).
+Proof. intros A FL PL B. exact (band_det_spec_partial_lemma FL PL B). Qed.
+Check band_det_spec_partial : forall (A : Arith), FieldLaws A -> PivotLaws A -> forall (B : banded A),
+  wfB B -> bm1 B <= bn B ->
+  exists dd, band_det B = Ok dd /\
+    (dd <> zero -> forall b, length b = bn B ->
+       exists x, band_solve B b = Ok x /\ length x = bn B /\ dense_mulv B x = b) /\
+    (trivial_kernel B -> dd <> zero).
+Print Assumptions band_det_spec_partial.
+
+(* ---- the pre-repair pivot rule (signed comparison, unconditional division) is refuted by the committed witness.
+   Exact tier here; the binary64 half ([[-2,1],[1e-20,1]] x = [-1,1]: legacy answers [0,1], repaired [1,1]) is
+   Legacy.C04Refuted.band_pivot_legacy_refuted, compiled with this file (its Print Assumptions lists the
+   primitive-float operations, which the closed-theorem audit of this file does not allow). ---- *)
+Theorem band_pivot_legacy_refuted_exact :
+  @band_solve_legacy AQ wit_q [q 0 1; q 1 1] = Panic DivZero /\
+  @band_solve AQ wit_q [q 0 1; q 1 1] = Ok [q 1 1; q 1 1] /\
+  @band_det_legacy AQ wit_q = Panic DivZero /\ @band_det AQ wit_q = Ok (q (-1) 1).
+Proof. exact (conj (proj1 Legacy.C04Refuted.band_pivot_legacy_refuted_exact) (conj (proj2 Legacy.C04Refuted.band_pivot_legacy_refuted_exact) band_det_legacy_refuted)). Qed.
+Check band_pivot_legacy_refuted_exact :
+  @band_solve_legacy AQ wit_q [q 0 1; q 1 1] = Panic DivZero /\
+  @band_solve AQ wit_q [q 0 1; q 1 1] = Ok [q 1 1; q 1 1] /\
+  @band_det_legacy AQ wit_q = Panic DivZero /\ @band_det AQ wit_q = Ok (q (-1) 1).
+Print Assumptions band_pivot_legacy_refuted_exact.
